@@ -34,12 +34,15 @@ func runC29(c *Ctx) {
 
 	c.Rule("C29-R1", "O+C", "Commit: fresh re-read of \"config\", own changes applied per snap to the re-read entries, that map written back; nothing written without changes", 6)
 	var get, set ssa.CallInstruction
-	for _, cc := range CallSites(commit, stGet) {
+	// (the re-read may sit in a private helper of Commit; path queries follow the call into it)
+	gets, _ := P.CallSitesDeep(commit, stGet)
+	for _, cc := range gets {
 		if keyIs(cc, "config") {
 			get = cc
 		}
 	}
-	for _, cc := range CallSites(commit, stSet) {
+	sets, _ := P.CallSitesDeep(commit, stSet)
+	for _, cc := range sets {
 		if keyIs(cc, "config") {
 			set = cc
 		}
